@@ -48,17 +48,23 @@ def ctor_calls(f, cname):
 def check(run):
     p = run.prog
     roots = [p.fn(r) for r in ROOTS]
-    ief.run_ief(run, 'C01', roots, triage=triage.IEF)
-    run.floor('C01-IEF', run.units['ief_functions_checked'], 150)
+    run.attempt(ief.run_ief, run, 'C01', roots, triage=triage.IEF)
+    run.floor('C01-IEF', run.units.get('ief_functions_checked', 0), 150)
     km = kinds_and_methods(p)
     gm = getmap(p)
     if len(gm) < 11:
         raise AnalysisError('only %d get_* statistics found (11 on the pinned tree)' % len(gm))
-    shared(run, p, gm)
-    close(run, p, km, gm)
-    cache(run, p, km)
-    datelang(run, p)
-    rexclosure(run, p)
+    run.attempt(shared, run, p, gm)
+    run.attempt(loop, run, p)
+    try:
+        close(run, p, km, gm)
+    except AnalysisError as e:
+        if not all(o.ok for o in run.obs if o.rule == 'C01-LOOP'):
+            raise
+        run.note('C01-CLOSE', 'discovery is not in the shape the structural rule reads (%s): the closed loop C01-LOOP decides alone' % e)
+    run.attempt(cache, run, p, km)
+    run.attempt(datelang, run, p)
+    run.attempt(rexclosure, run, p)
     from .common import observed_rule
     calc = p.cls('PandasConstraintCalculator')
     n = observed_rule(run, 'C01-OBSERVED', p, list(calc.methods.values()),
@@ -68,7 +74,7 @@ def check(run):
     run.floor('C01-OBSERVED', n, 15)
     # the .tdda file written by discovery is what verification reads
     from .c09 import strip
-    strip(run, p)
+    run.attempt(strip, run, p)
     run.rules['C01-STRIP'] = run.rules.pop('C09-STRIP') + ' (discovered constraints reach verification through this text)'
     for o in run.obs:
         if o.rule == 'C09-STRIP':
@@ -114,6 +120,80 @@ def shared(run, p, gm):
     ok = bool(comp) and all(len(n.args) >= 2 and norm(n.args[1]) == 'RE_FLAGS' for n in comp)
     run.ob('C01-SHARED', 'rex-flags-used', ok, 'calc_rex_constraint compiles with %s' % [norm(n) for n in comp], fn=crc)
     run.floor('C01-SHARED', len(gm) + 4, 15)
+
+
+def loop(run, p):
+    """discover -> verify, closed at the level of the base classes: both evaluated with the same stand-in statistics"""
+    import datetime as dt
+    from ..pyeval import Interp, Obj, Unsupported, Raised
+    from .c07 import discovery_cases
+    run.rule('C01-LOOP', 'what discovery emits, verification accepts: for every column summary of the grid (type, records, nulls, distinct '
+                         'values, minimum and maximum in every ordering around zero, dates, string sets) the constraints returned by '
+                         'discover_field_constraints are each handed to the verifier of their kind, evaluated with the same stand-in '
+                         'statistics - every one must come back satisfied; a constraint built from another statistic than the one its '
+                         'verifier reads, or a comparator that fails at equality, shows up as a failed verdict')
+    vc = p.cls('BaseConstraintVerifier')
+    n = 0
+    bad = []
+    for summary, stubs, fc, err in discovery_cases(p):
+        if fc is None or not isinstance(fc, Obj):
+            continue
+        cons = fc.attrs.get('constraints')
+        cons = cons if isinstance(cons, dict) else (cons.items if isinstance(cons, Obj) else {})
+        I = Interp(p, consts={'unicode_string': str, 'byte_string': bytes, 'long_type': int})
+        I.safe_modules = {'datetime'}
+        I.extra_names['datetime'] = dt
+
+        def hook(mth, args, kwargs, selfobj, stubs=stubs):
+            if mth.name in stubs:
+                return True, stubs[mth.name]
+            if mth.name == 'is_null':
+                return True, args[0] is None
+            if mth.name == 'column_exists':
+                return True, True
+            if mth.name == 'types_compatible':
+                a, b = args[0], args[1]
+                num = (bool, int, float)
+                return True, (isinstance(a, num) and isinstance(b, num)) or type(a) is type(b)
+            if mth.name == 'to_datetime':
+                return True, args[0]
+            if mth.name in ('calc_rex_constraint', 'allowed_values_exclusions'):
+                return True, None
+            if mth.name == 'calc_non_integer_values_count':
+                return True, 0
+            if mth.name == 'calc_all_non_nulls_boolean':
+                return True, False
+            return False, None
+        I.on_call = hook
+        v = Obj(vc)
+        try:
+            I.call(vc.methods['__init__'], [], selfobj=v)
+            table = I.call(vc.methods['verifiers'], [], selfobj=v)
+        except (Unsupported, Raised) as e:
+            raise AnalysisError('BaseConstraintVerifier is not evaluable: %s' % e)
+        for kind, c in cons.items():
+            n += 1
+            if kind not in table:
+                bad.append((summary, kind, c.attrs.get('value'), 'no verifier'))
+                continue
+            try:
+                verdict = I.apply(table[kind], ['f', c], {})
+            except Raised as e:
+                verdict = 'raises: %s' % e
+            except Unsupported as e:
+                raise AnalysisError('verifier for %s is not evaluable: %s' % (kind, e))
+            if verdict is not True and not (verdict and not isinstance(verdict, str)):
+                bad.append((summary, kind, c.attrs.get('value'), verdict))
+    f = p.method('BaseConstraintDiscoverer', 'discover_field_constraints')
+    kinds = sorted({b[1] for b in bad})
+    for kind in kinds or ['all']:
+        rows = [b for b in bad if b[1] == kind]
+        run.ob('C01-LOOP', 'discover->verify:%s' % kind, not rows,
+               '%d discovered constraints verified against the statistics they were discovered from%s' % (n, '' if not rows else
+               '; the %s constraint %r discovered for %s is not satisfied (verdict %r)' % (
+                   kind, rows[0][2], {k: v for k, v in rows[0][0].items() if k in ('type', 'records', 'nulls', 'min', 'max', 'distinct')}, rows[0][3])),
+               fn=f)
+    run.floor('C01-LOOP', n, 900)
 
 
 def close(run, p, km, gm):
